@@ -528,6 +528,20 @@ func (c *conn) Close() error {""")]),
 			case responses <- fcall:""")]),
 
  # ---- C05
+ ("c04-dirloop-eof-continue", "C04", [("encoding.go", """					if err == io.EOF {
+						return nil
+					}
+					return err
+				}
+				*v = append(*v, element)""", """					if err != io.EOF {
+						return err
+					}
+					if len(*v) > 0 {
+						return nil
+					}
+					continue
+				}
+				*v = append(*v, element)""")]),
  ("c05-no-notag-skip", "C05", [("transport.go", """		hint++
 		if hint == NOTAG {
 			hint = 0
